@@ -853,6 +853,56 @@ CONFIG['C12'] = {'assumptions': ['a request has either a body parameter or form 
                   "the scripted bodies and upload sources are the harness's own (their semantics is defined on both sides)",
                   'goroutine accounting reads runtime.Stack; elapsed time is wall-clock: support, not proof']}
 
+CONFIG['C10'] = {'assumptions': ['parameter names are brace-free and distinct (they are Go map keys); patterns are byte strings',
+                 "Go's map iteration order is not observable: each P case is rebuilt 4 times and must give one answer",
+                 'the Spec speaks about base paths as client.New leaves them (rooted) and about base paths and patterns that are plain text before '
+                 'an optional ?query: no scheme, authority, fragment or percent-escape in the static text (a path template is not percent-encoded); '
+                 'other inputs are generated (tags ~P:odd-input, ~P:unrooted-base) and the model must still agree with the code on them, but the '
+                 'Spec is not judged',
+                 'the Host url.Parse reads out of the built string (F10a) is overwritten by the runtime and not observable through '
+                 'CreateHttpRequest; it is validated by stream U'],
+ 'go_entry': 'client.Runtime.CreateHttpRequest (request.buildHTTP, Runtime.pickScheme); url.Parse (stream U)',
+ 'model_fn': 'build (GoURLParse.parse of base path and pattern, GoQuery.parseQuery, GoPath.join, urlPath / substSeq, GoURLParse.parse + escapedPath '
+             'of the built string, finalQuery, GoQuery.encode) / pickScheme',
+ 'partial': ['request_path_exact / request_segments / build_exact are stated for patterns given by their segments (PathOk: ordinary segments, static '
+             'text without % and braces, every placeholder supplied) and a clean rooted base path; patterns with dot segments or duplicate slashes '
+             'are covered by join_clean_base (path.Join) and by the correspondence',
+             'build_exact takes the results of url.Parse on base path and pattern as hypotheses; build_exact_plain discharges them (parse_plain) for '
+             'base paths /b1/../bm[?query] and patterns /s1/../sn[/][?query] whose static text consists of valid path bytes and whose placeholder '
+             'names hold no % ? # or control bytes; inputs outside (schemes, authorities, fragments, percent-escapes in static text) are covered by '
+             'the correspondence only'],
+ 'quick_n': 30000,
+ 'rule': "stream P, end to end: the raw Runtime.BasePath (after client.New's normalisation; 1 in 40 set directly / with authority, scheme, escapes, "
+         'fragment), the raw pattern (1-4 segments over static segments {pets store a b.c x_y v1 A-Z}, static text net/url keeps but would escape '
+         "itself (' ! ( ) * [ ] : @ ; , = $ & + ~), static text net/url must escape (e-acute, space, quote, < > | ^ ` backslash: known finding "
+         'F10b), dot segments and %-escaped static text, {name} segments, prefix{name}suffix and two placeholders in one segment, trailing slash, '
+         "pattern without leading slash, embedded static query incl. malformed escapes and ';', 1 in 25 odd patterns: nested/unbalanced braces, '', "
+         "'/', '//', authority, scheme, fragment), path values (placeholder look-alikes, / ? # % .. . space ; braces non-ASCII NUL + : *, the empty "
+         "value 1 in 6: known finding F10a), parameters missing or extra, the caller's query parameters (0-2 keys incl. space, non-ASCII, '&=', 0-2 "
+         'values each, a key set without values); every field of the request URL is compared (Scheme, Opaque, User, Host, Path, RawPath, '
+         "EscapedPath(), ForceQuery, RawQuery, Fragment, RawFragment, OmitHost) or the error; each case rebuilt 4x to shake Go's map order. Q "
+         "(static query of base path and pattern vs caller's parameters, 0-2 keys each, repeated values; parsed map and raw RawQuery), S (scheme "
+         'lists), E (net/url escape tables: all 256 bytes x both modes, every run), U (url.Parse against the hand model: random bytes over / % '
+         'letters digits { } : * ; , = + space ? # . @ [ ] ! $ & \' ( ) < > " | ^ ` ~ - _ backslash NUL 0x1f 0x7f 0x80 0xc3 0xa9 0xff; authority '
+         'forms with ports, IPv6 literals and zones, user info; scheme forms; path-like strings as the client builds them). Non-trivial: P with a '
+         'well-formed pattern and plain inputs, every Q/S/E, every U but the empty string; distinct = distinct input lines.',
+ 'search_s': 60,
+ 'thorough_n': 300000,
+ 'thorough_seeds': 4,
+ 'trusted_base': ['reading of the property text into the Lean `Spec` (human step, RtVerif/Model/<id>.lean)',
+                  'correspondence check (differential: Go harness /verif/harness -> protocol lines -> compiled Lean driver rtdriver evaluating Model '
+                  'and Spec); coverage bounded by the generators',
+                  "factgen (go/ast extraction of constants/tables into RtVerif/Gen/Facts.lean) and the driver's line parser",
+                  "net/url's Parse/setPath/EscapedPath/validEncoded/parseAuthority/parseHost/shouldEscape (all modes) are a hand model "
+                  '(RtVerif/Base/GoURLParse.lean), validated on every run against url.Parse field by field (stream U, 1 case in 4) and, composed '
+                  'with the client code, by every P case; error messages are not distinguished (an error is `none`)',
+                  'net/url PathEscape/QueryEscape/unescape are hand-copied (RtVerif/Base/GoURL.lean) and validated over all 256 bytes x both modes '
+                  "on every run (stream E); Values.Encode/ParseQuery are RtVerif/Base/GoQuery.lean (validated by C04's streams V E / V P and here by "
+                  "the raw RawQuery of every P and Q case); path.Join is RtVerif/Base/GoPath.lean (validated by C20's stream G and here by every P "
+                  'case)',
+                  'http.NewRequestWithContext is modelled as url.Parse of the string it is given (method and context are valid; removeEmptyPort acts '
+                  'on a Host the runtime overwrites)']}
+
 # properties not claimed (with the reason) and hook commits in /repo (none so far: no hooks needed)
 # built but not yet claimed (with the reason shown in MANIFEST.not_applicable)
 PENDING = {"C05DA"}   # C05DA is a sub-check of C05 ("also"), never claimed on its own
